@@ -366,6 +366,30 @@ func runC36(c *core.Ctx) {
 			consistency(c, d, fmt.Sprintf("range list kind=%d %v", kind, rl))
 		}
 	}
+	// reserved vs extension ranges of one message: all pairs of single ranges over 1..6
+	var single [][2]int32
+	for a := int32(1); a <= 6; a++ {
+		for b := a; b <= 6; b++ {
+			single = append(single, [2]int32{a, b})
+		}
+	}
+	for _, r := range single {
+		for _, e := range single {
+			fdp := &descriptorpb.FileDescriptorProto{Name: proto.String("verif/ranges2.proto"), Package: proto.String("verif.ranges2")}
+			fdp.MessageType = []*descriptorpb.DescriptorProto{{Name: proto.String("R"),
+				ReservedRange:  []*descriptorpb.DescriptorProto_ReservedRange{{Start: proto.Int32(r[0]), End: proto.Int32(r[1] + 1)}},
+				ExtensionRange: []*descriptorpb.DescriptorProto_ExtensionRange{{Start: proto.Int32(e[0]), End: proto.Int32(e[1] + 1)}}}}
+			overlap := r[0] <= e[1] && e[0] <= r[1]
+			_, err := protodesc.NewFile(fdp, protoregistry.GlobalFiles)
+			nr++
+			if overlap && err == nil {
+				c.Violation(fmt.Sprintf("NewFile accepts a reserved range %v overlapping an extension range %v", r, e), nil)
+			}
+			if !overlap && err != nil {
+				c.Violation(fmt.Sprintf("NewFile rejects disjoint reserved %v and extension %v ranges", r, e), err.Error())
+			}
+		}
+	}
 	c.Eval(int64(nr))
 	c.DistinctN(int64(nr))
 	c.Bounds["linked_files"] = len(files)
@@ -389,7 +413,7 @@ func rangeLists() [][][2]int32 {
 		out = append(out, [][2]int32{single[i]})
 		for j := range single {
 			out = append(out, [][2]int32{single[i], single[j]})
-			for k := j; k < len(single); k += 3 {
+			for k := (i + j) % 2; k < len(single); k += 2 {
 				out = append(out, [][2]int32{single[i], single[j], single[k]})
 			}
 		}
